@@ -221,6 +221,21 @@ impl Check for C11 {
                 inputs.push(format!("{}1{}1", l, u));
                 inputs.push(format!("{}{}11", l, l));
                 inputs.push(format!("11{}{}", u, u));
+                // literal flag q together with i: the literal is compared case-blind
+                for (pat, inp) in [(l, u), (u, l)] {
+                    for (flags, want) in [("qi", true), ("iq", true), ("q", false)] {
+                        out.inc("states");
+                        out.inc("validated");
+                        if let Compiled::Ok(re) = common::compile(&format!("{}+", pat), flags, false) {
+                            let input = format!("1{}+1", inp);
+                            if let Out::Ok(got) = imp::is_match(&re, &input) {
+                                if got != want {
+                                    out.fail("C11", &Case::new(&scope_name, &format!("{}+", pat), flags).input(&input).api("is_match"), "LiteralFlagCase", &want.to_string(), &got.to_string(), "under q the pattern is a literal string; with i it is compared case-blind");
+                                }
+                            }
+                        }
+                    }
+                }
                 // a group recaptured in every iteration with a case-blind back-reference:
                 // explicit oracle (every pair of characters equal or case counterparts)
                 let doubled = [format!("{}{}", l, u), format!("{}{}11", l, u), format!("11{}{}", u, l), format!("{}{}{}1", l, u, l), format!("{}{}{}{}11", l, l, u, l), format!("1{}{}1", l, u), format!("bB{}{}", u, l), format!("{}{}Bb", l, l)];
